@@ -892,7 +892,7 @@ impl Resolver {
                 );
                 for (name, field) in parser_fields.iter() {
                     let ss = self.stack.len();
-                    if matches!(field.kind, EK::Function { .. }) {
+                    if matches!(unparenthesized(field).kind, EK::Function { .. }) {
                         self.stack.push(("self".to_string(), self_var));
                     }
                     fields.push((name.clone(), self.expression(field)?));
